@@ -598,7 +598,7 @@ fn step(cx: &mut Ctx, idx: usize, op: &Op, ob: &Obs) {
                 },
             );
         }
-        (Op::BuilderOp { b, op }, Obs::BuilderOp { applied, panic }) => {
+        (Op::BuilderOp { b, op }, Obs::BuilderOp { applied, panic, peek }) => {
             let p = cx.prop.to_string();
             if let Some(at) = panic {
                 for pp in ["C13", "C14", "C17"] {
@@ -657,6 +657,17 @@ fn step(cx: &mut Ctx, idx: usize, op: &Op, ob: &Obs) {
                 BOp::SetAssertion(a) => {
                     cx.j.trace.push("bop:assertion".into());
                     m.assertion = Some(a.clone());
+                }
+                BOp::PeekPayload => {
+                    cx.j.trace.push("bop:peek".into());
+                    // no effect on the builder; the text describes exactly the claims set so far
+                    let want = Content::Claims(m.claims.clone());
+                    let (ok, got) = match peek {
+                        Some(Ok(s)) => (content_matches(&want, &Outcome::OkStr(s.clone())), s.clone()),
+                        Some(Err(e)) => (false, format!("error: {}", e)),
+                        None => (false, "no result".into()),
+                    };
+                    cx.clause("C14", "payload_preview_describes_the_claims_set", idx, ok, "JSON object equal to the claims set so far", got, &[]);
                 }
             }
         }
